@@ -256,7 +256,10 @@ impl<'a> Searcher<'a> {
                     if looks_like_regexp(part) {
                         // Create a regex from the part
                         let rx_string = format!("^{}$", part);
-                        let rx = Regex::new(&rx_string).unwrap();
+                        let rx = match Regex::new(&rx_string) {
+                            Ok(rx) => rx,
+                            _ => error_exit("Incorrect regex expression", part),
+                        };
                         let mut tmp = vec![];
 
                         if ext_roots.is_empty() {
